@@ -1,7 +1,7 @@
 ------------------------------- MODULE FuncAlg -------------------------------
 (***************************************************************************)
-(* E10 / C41: Function objects, step helpers and interpolating splines on  *)
-(* an exact sub-domain.                                                    *)
+(* E10 / C41, C30: Function objects, step helpers, interpolating splines   *)
+(* and polynomials given by their roots, on an exact sub-domain.           *)
 (*                                                                         *)
 (* A function of the library is, on this sub-domain, a POLYNOMIAL with     *)
 (* integer coefficients (or a polynomial composed with an affine map, or   *)
@@ -29,6 +29,11 @@
 (*           its value and derivatives are the polynomial's everywhere in  *)
 (*           the knot range; through arbitrary data it takes the data      *)
 (*           values at the knots; for degree 1 it is the chord             *)
+(*                                                                         *)
+(*   roots   a polynomial GIVEN as lead * prod (q_i x - z_i), z_i Gaussian  *)
+(*           integers: TLC expands the product (Vieta) and checks that     *)
+(*           every z_i/q_i makes the expanded polynomial vanish; the root  *)
+(*           finder applied to the coefficients must return these roots    *)
 (*                                                                         *)
 (* The facts about the step polynomial S(x) = 10x^3 - 15x^4 + 6x^5 that    *)
 (* the property names (end values, monotone, twice continuously            *)
@@ -104,6 +109,39 @@ CS(k, m) == LET am == IF m < 0 THEN -m ELSE m
                 z == Turn(z1, k % 4)
             IN [c |-> [n |-> z[1], d |-> Pow(5, am)], s |-> [n |-> z[2], d |-> Pow(5, am)]]
 
+\* ---------------------------------------------------------------- polynomials from their roots (C30)
+\* Complex integers are pairs <<re, im>>; a complex polynomial is a sequence of them, P[k+1] the coefficient of x^k.
+\* A polynomial is GIVEN by its leading factor and its linear factors (q x - z), z = a + b i: the roots are z/q with
+\* their multiplicities by construction, and expanding the product is Vieta's relations.
+ZAdd(x, y) == <<x[1] + y[1], x[2] + y[2]>>
+ZMul(x, y) == <<x[1] * y[1] - x[2] * y[2], x[1] * y[2] + x[2] * y[1]>>
+ZNeg(x) == <<-x[1], -x[2]>>
+ZCoef(P, k) == IF k >= 1 /\ k <= Len(P) THEN P[k] ELSE <<0, 0>>
+\* (TLCEval: TLC evaluates function constructors lazily; without it the nested products are recomputed per coefficient)
+MulLin(P, q, z) == TLCEval([k \in 1..(Len(P) + 1) |-> ZAdd(ZMul(<<q, 0>>, ZCoef(P, k - 1)), ZNeg(ZMul(z, ZCoef(P, k))))])
+RECURSIVE FromFactors(_, _, _)
+FromFactors(lead, F, i) == IF i > Len(F) THEN <<lead>>
+                           ELSE LET rest == TLCEval(FromFactors(lead, F, i + 1)) IN MulLin(rest, F[i].q, <<F[i].a, F[i].b>>)
+RECURSIVE ZPow(_, _)
+ZPow(z, k) == IF k = 0 THEN <<1, 0>> ELSE ZMul(z, ZPow(z, k - 1))
+RECURSIVE ZSum(_, _)
+ZSum(s, i) == IF i > Len(s) THEN <<0, 0>> ELSE ZAdd(s[i], ZSum(s, i + 1))
+\* q^n P(z/q) = sum c_k z^k q^(n-k)
+ZEvalNum(P, z, q) == LET n == Len(P) - 1 IN ZSum([k \in 1..(n + 1) |-> ZMul(P[k], ZMul(ZPow(z, k - 1), <<Pow(q, n - (k - 1)), 0>>))], 1)
+RECURSIVE ZProd(_, _)
+ZProd(s, i) == IF i > Len(s) THEN <<1, 0>> ELSE ZMul(s[i], ZProd(s, i + 1))
+RootsCase(c) ==
+  LET lead == <<c.lead[1], c.lead[2]>>
+      P == TLCEval(FromFactors(lead, c.factors, 1))
+      n == Len(c.factors)
+  IN [re |-> [k \in 1..(n + 1) |-> P[n + 2 - k][1]],          \* decreasing powers, as the library takes them
+      im |-> [k \in 1..(n + 1) |-> P[n + 2 - k][2]],
+      \* what the construction promises (checked by TLC for every case)
+      vanish |-> \A i \in 1..n : ZEvalNum(P, <<c.factors[i].a, c.factors[i].b>>, c.factors[i].q) = <<0, 0>>,
+      leading |-> P[n + 1] = ZMul(lead, ZProd([i \in 1..n |-> <<c.factors[i].q, 0>>], 1)),
+      constant |-> P[1] = ZMul(lead, ZProd([i \in 1..n |-> <<-c.factors[i].a, -c.factors[i].b>>], 1)),
+      realcoef |-> (c.real = 1) => \A k \in 1..(n + 1) : P[k][2] = 0]
+
 \* ---------------------------------------------------------------- cases
 Orders(P, p, q, nmax) == [k \in 1..(nmax + 1) |-> PEval(PDerivN(P, k - 1), p, q)]
 Case(c) ==
@@ -128,10 +166,13 @@ Case(c) ==
          [v |-> [n |-> y0 * c.q * (x1 - x0) + (y1 - y0) * (c.p - x0 * c.q), d |-> c.q * (x1 - x0)],
           slope |-> [n |-> y1 - y0, d |-> x1 - x0]]
 
+    [] c.kind = "roots" -> RootsCase(c)
     [] c.kind = "interp" -> [knots |-> c.y]      \* an interpolating spline takes the data values at the knots
 
 AInit == l = 1
 ANext == l <= Len(Log) /\ l' = l + 1
 ASpec == AInit /\ [][ANext]_l
-EmitAlg == l > 1 => PrintT("OUT " \o ToJson([i |-> l - 1, r |-> Case(Log[l - 1])]))
+EmitAlg == l > 1 => LET r == Case(Log[l - 1]) IN
+                      /\ PrintT("OUT " \o ToJson([i |-> l - 1, r |-> r]))
+                      /\ (Log[l - 1].kind = "roots" => r.vanish /\ r.leading /\ r.constant /\ r.realcoef)
 =============================================================================
